@@ -130,6 +130,10 @@ def prepare_cpp(states, sanitize=True, with_python=False):
             if len(sts) == 1:
                 rejected.append((sts[0], stage, msg))
                 return
+            if len(rejected) >= 8:
+                # enough culprits isolated in this batch: the rest of a failing group is set aside unbisected
+                rejected.extend((st, stage, 'in a failing group, not bisected further: ' + msg) for st in sts)
+                return
             mid = len(sts) // 2
             go(sts[:mid])
             go(sts[mid:])
